@@ -308,3 +308,8 @@ package raft
 //@   ensures len(entries) >= 1 && old(entries[0].Index) + len(entries) - 1 >= old(ms.ents[0].Index) + 1 ==> (forall i uint64 :: ms.ents[0].Index <= i && i < old(entries[0].Index) ==> mterm(ms, i) == old(mterm(ms, i)))
 //@   ensures len(entries) >= 1 && old(entries[0].Index) + len(entries) - 1 >= old(ms.ents[0].Index) + 1 ==> (forall i uint64 :: max(old(entries[0].Index), ms.ents[0].Index + 1) <= i && i <= mlast(ms) ==> mterm(ms, i) == old(entries[i - entries[0].Index].Term))
 //@   modifies ms.ents, ms.ents[len(ms.ents):cap(ms.ents)]
+
+//@ func isHardStateEqual(a pb.HardState, b pb.HardState) bool
+//@   ensures result <==> (a.Term == b.Term && a.Vote == b.Vote && a.Commit == b.Commit)
+//@ func IsEmptyHardState(st pb.HardState) bool
+//@   ensures result <==> (st.Term == 0 && st.Vote == 0 && st.Commit == 0)
